@@ -31,6 +31,18 @@ CASES = [
     ("update-upward-walk-skips-self", "tree", TREE, "self.subtotals[index]\n                .checked_add_assign(&difference)\n                .unwrap();\n            while", "while", 0, "failed"),
     ("harmless-shift", "tree", TREE, "index = (index - 1) / 2;\n            self.subtotals[index].checked_add_assign(&weight).unwrap();", "index = (index - 1) >> 1;\n            self.subtotals[index].checked_add_assign(&weight).unwrap();", 0, "verified"),
     ("harmless-rename-local", "tree", TREE, None, None, 0, "verified"),   # handled specially below
+    ("alias-baseline", "alias", None, None, None, 0, "verified"),
+    ("alias-drop-minus-sum", "alias", ALIAS, "no_alias_odds[b as usize] - weight_sum + no_alias_odds[s as usize];", "no_alias_odds[b as usize] + no_alias_odds[s as usize];", 0, "failed"),
+    ("alias-set-alias-swapped", "alias", ALIAS, "aliases.set_alias(s, b);", "aliases.set_alias(b, s);", 0, "failed"),
+    ("alias-max-weight-MAX", "alias", ALIAS, ".map(|n| W::MAX / n)", ".map(|n| W::MAX)", 0, "failed"),
+    ("alias-weights-ignores-contrib", "alias", ALIAS, "(no_alias_odd + alias_contribution) / n_converted", "no_alias_odd / n_converted", 0, "failed"),
+    ("alias-split-swapped", "alias", ALIAS, "if odds < weight_sum {", "if odds > weight_sum {", 0, "failed"),
+    ("alias-sample-le", "alias", ALIAS, "rng.sample(&self.uniform_within_weight_sum) < self.no_alias_odds[candidate as usize]", "rng.sample(&self.uniform_within_weight_sum) <= self.no_alias_odds[candidate as usize]", 0, "failed"),
+    ("alias-accept-empty", "alias", ALIAS, "if n == 0 || n > u32::MAX as usize {", "if n > u32::MAX as usize {", 0, "failed"),
+    ("alias-validity-lt", "alias", ALIAS, "W::ZERO <= w && w <= max_weight_size", "W::ZERO <= w && w < max_weight_size", 0, "failed"),
+    ("alias-harmless-split-le-1", "alias", ALIAS, "if odds < weight_sum {", "if odds <= weight_sum {", 0, "verified"),
+    ("alias-harmless-split-le-2", "alias", ALIAS, "if no_alias_odds[b as usize] < weight_sum {", "if no_alias_odds[b as usize] <= weight_sum {", 0, "verified"),
+    ("alias-weights-wrong-index", "alias", ALIAS, "let alias_index = self.aliases[j] as usize;", "let alias_index = j;", 0, "failed"),
     ("harmless-reorder", "tree", TREE, "let left_index = 2 * index + 1;\n        let right_index = 2 * index + 2;\n        let mut w = self.subtotals[index].clone();", "let mut w = self.subtotals[index].clone();\n        let right_index = 2 * index + 2;\n        let left_index = 2 * index + 1;", 0, "verified"),
 ]
 
